@@ -64,7 +64,7 @@ func runC20(c *core.Ctx) {
 	c.SetExtra("census_types", int64(len(types)))
 
 	// ---- partial values: what a parser returns together with an error
-	unit := c.N(40, 800)
+	unit := c.N(40, 500)
 	for _, p := range lib.Parsers() {
 		p := p
 		c.Job("partial/"+p.ID(), unit*weight(p.Kind), func(i int, r *core.Rand) {
